@@ -143,7 +143,7 @@ pub fn watch(what: &str) -> WatchGuard {
             if let Some((what, age)) = stuck {
                 if HANG_EXIT.load(Ordering::Relaxed) {
                     eprintln!("fxv: watchdog: `{what}` has not finished after {age:?}; inconclusive");
-                    println!("INCONCLUSIVE watchdog what={what:?}");
+                    println!("INCONCLUSIVE watchdog what={what:?} threads={}", thread_states());
                     cleanup_scratch();
                     std::process::exit(2);
                 } else if !HANG_FLAG.swap(true, Ordering::AcqRel) {
@@ -360,4 +360,19 @@ pub fn with_visible_cpus<T>(visible: usize, f: impl FnOnce() -> T) -> T {
         libc::sched_setaffinity(0, std::mem::size_of::<libc::cpu_set_t>(), &old);
         r
     }
+}
+
+/// One letter per thread of this process (R running, S sleeping, D disk wait ...), from /proc.
+pub fn thread_states() -> String {
+    let mut out = String::new();
+    if let Ok(dir) = std::fs::read_dir("/proc/self/task") {
+        for e in dir.flatten() {
+            if let Ok(stat) = std::fs::read_to_string(e.path().join("stat")) {
+                if let Some(rest) = stat.rsplit(')').next() {
+                    out.push(rest.trim().chars().next().unwrap_or('?'));
+                }
+            }
+        }
+    }
+    out
 }
